@@ -64,6 +64,9 @@ CHECKS = {
  "C18": dict(cat="exploration", technique="bounded-exhaustive enumeration of interest-curve configurations (complete product over a small menu + shape-directed larger menus) against the real validator and rate calculator",
    text="Every 5-point configuration over the small menu (any padding placement) and every strictly-increasing-utilisation shape over a larger menu, x zero/hundred rates, plus a legacy-curve menu, is given to the real validate(); every accepted curve is evaluated at all breakpoints, +-1/2 ulp, segment interior points, 0, 1 and beyond, under 3 fee vectors, and must be defined, bounded, exact at its points and monotone.",
    ref="6 C18"),
+ "C19": dict(cat="exploration", technique="complete product enumeration of fee-bucket / liquidity states through the real collect instruction, authorisation matrices for every vault draw-down and reward payout, and bounded-exhaustive sequences of reward-bearing operations with an exact reference accrual",
+   text="(A) 6^3 bucket values x 7 liquidity levels x {SPL bank, Token-2022 bank with a 1 % transfer fee} through collect_bank_fees: each bucket falls by a whole number not above its whole part, the liquidity vault pays exactly that, each destination (insurance vault, fee vault, the global fee wallet's canonical token account) receives its own bucket's amount net of the mint's fee, every whole part is paid when liquidity suffices. (B) withdraw_fees / withdraw_insurance / withdraw_fees_permissionless x 12 signers x {fixed destination, another token account}. (C) every sequence up to depth 4 (quick) / 5 of deposits, withdrawals, withdraw-all, settle and claim by two accounts with at most two clock advances {30 d, 1 y} x budgets {ample, nearly exhausted, zero rate, high rate}: rewards credited to the acting position = elapsed x size before the instruction x rate / year, capped by the remaining budget, which falls by exactly that and never below zero. (D) reward withdrawal {signed, permissionless} x 12 signers x {normal, in receivership, frozen, disabled} x {configured destination, someone else's reward token account}.",
+   ref="6 C19"),
  "C20": dict(cat="exploration", technique="complete products over boundary-directed input menus of the venue conversion functions, compared with exact rational arithmetic; composite price adjustment through the real oracle adapter",
    text="All combinations of supplies, decimals, amounts, prices and rates from boundary-directed menus are pushed through the Kamino/Solend/Drift conversion and price-adjustment functions (and the real OraclePriceFeedAdapter for the adjusted price); results must never exceed the exact rational value, round trips never gain, errors only on overflow / zero divisor, staleness exactly 'refreshed before now'.",
    ref="6 C20"),
